@@ -70,6 +70,7 @@ type Engine struct {
 	inlineBuf   []*StoreRec
 	closedUse   int
 	closedAddrs []string
+	rwIDs       map[uintptr]bool // mutexes seen at an RLock yield
 	// hookMu guards what hooks reached from goroutines woken by the same timer instant (two
 	// servers finishing their graceful close) may touch at once
 	hookMu sync.Mutex
@@ -195,6 +196,7 @@ func newEngine(plan *Plan, sched []string) *Engine {
 		disks:     map[string]*Disk{},
 		stores:    map[string]*simStore{},
 		listeners: map[string]http.Handler{},
+		rwIDs:     map[uintptr]bool{},
 		netMode:   map[string]string{},
 		upCount:   map[string]int{},
 		getCount:  map[string]int{},
@@ -502,8 +504,19 @@ func (e *Engine) drainEvicted() []string {
 	return ev
 }
 
+// Poisoned: a run ended with tasks that never complete; they may hold locks of pike's
+// process-wide registries, so these are not reset (the reset could wait for ever) and the
+// process must not execute another run.
+var Poisoned atomic.Bool
+
 func (e *Engine) teardown() {
 	atomic.StoreInt32(&e.mode, 1)
+	if len(e.hist.Stuck) > 0 {
+		Poisoned.Store(true)
+		e.unregisterStores()
+		e.clearListeners()
+		return
+	}
 	pikeserver.Reset(nil)
 	pikeupstream.ResetWithOnStats(nil, nil)
 	pikelocation.Reset(nil)
@@ -799,15 +812,44 @@ func (e *Engine) enabled() []action {
 			e.wait()
 		}
 	}
+	// sync.RWMutex prefers writers: once a writer has called Lock and waits for the readers to
+	// leave, new RLock calls wait behind it (a reader that takes the read lock a second time
+	// then deadlocks with it). The probes alone cannot show that - the waiting writer of the
+	// simulation has not really called Lock - so a blocked writer of a mutex that is also read-
+	// locked somewhere may "make its call" (action announce); from then on readers of that
+	// mutex are held back until it got the lock.
+	pendingW := map[uintptr]bool{}
+	for i := 0; i < n; i++ {
+		t := live[i]
+		if !t.isLockWait() {
+			t.announced = false
+			continue
+		}
+		k, id := t.getLock()
+		if k == KRLock && id != 0 {
+			e.rwIDs[id] = true
+		}
+		if _, ok := t.getProbe(); k == KLock && !ok && t.announced {
+			pendingW[id] = true
+		}
+	}
 	withheldOnly := []action{}
 	for i := 0; i < n; i++ {
 		t := live[i]
 		switch t.getState() {
 		case tsParked:
 			if t.isLockWait() {
+				k, id := t.getLock()
 				if _, ok := t.getProbe(); !ok {
+					if k == KLock && id != 0 && e.rwIDs[id] && !t.announced {
+						acts = append(acts, action{name: "announce:" + t.Name, weight: t.weight, kind: 6, task: t})
+					}
 					continue
 				}
+				if k == KRLock && pendingW[id] {
+					continue
+				}
+				t.announced = false
 			}
 			acts = append(acts, action{name: "run:" + t.Name, weight: t.weight, kind: 0, task: t})
 		case tsUpstream:
@@ -957,6 +999,9 @@ func (e *Engine) apply(a *action) {
 	case 4:
 		e.ev("clock", "", fmt.Sprintf("+%dms", a.ms))
 		time.Sleep(time.Duration(a.ms) * time.Millisecond)
+	case 6:
+		a.task.announced = true
+		e.hist.Probes["writer-waits-on-rwmutex"]++
 	case 5:
 		t := a.task
 		t.cancelled = true
